@@ -113,8 +113,8 @@ def partition_rule(ctx, P, rs, RULE):
                                 used.add(s2)
                                 work.append(s2)
             cands_m = sorted({s for s in m_sym})
-            if not cands_m and not run.variant["chunk"]:
-                cands_m = ["dim0[rows]"]
+            if not cands_m:
+                cands_m = ["dim0[rows]"]  # no bound mentions the row count: the blocks do not depend on it
             if len(cands_m) != 1:
                 ctx.undecided(RULE, key, f"row-count symbol not identified uniquely: {cands_m}", fi_loc)
                 continue
